@@ -65,4 +65,300 @@ Corollary case_flag_at_list_end b : NoDup (keys_l b) -> forall x, fresh x (keys_
   any_stops (info (l_st (anG_list fx b x))) b = tops_stop (l_tops (anG_list fx b x)).
 Proof. intros Hn x Hf. apply any_stops_tops. apply tops_ok; assumption. Qed.
 
+
+(* ------------------------------------------------------------------ *)
+(* part B: tail stability.  `claims lg y S`: every logged case flag equals `any_stops` on the map of state y,
+   and the keys of the case's top-level statements lie in the set S of keys that nothing outside will write *)
+Definition claims (lg : list gent) (y : st) (S : N -> Prop) : Prop :=
+  forall b lv s, In (GCase b lv s) lg ->
+    (forall t, In t (stmts_to_list b) -> S (pos t)) /\ any_stops (info y) b = s.
+
+Definition SK (K : list N) (p : N) : N -> Prop := fun k => In k K /\ k <> p.
+Definition SL (K : list N) : N -> Prop := fun k => In k K.
+
+Lemma any_stops_stable i i' b :
+  (forall t, In t (stmts_to_list b) -> iget i' (pos t) = iget i (pos t)) -> any_stops i' b = any_stops i b.
+Proof.
+  induction b as [|t r IH] using stmts_list_ind; intros H; [reflexivity|]. cbn [any_stops].
+  rewrite (H t (or_introl eq_refl)), IH; [reflexivity|]. intros t' Ht'. apply H. right. exact Ht'.
+Qed.
+
+Lemma claims_nil y S : claims [] y S.
+Proof. intros b lv s []. Qed.
+Lemma claims_app a b y S : claims a y S -> claims b y S -> claims (a ++ b) y S.
+Proof. intros Ha Hb c lv s Hin. apply in_app_or in Hin. destruct Hin; [eapply Ha | eapply Hb]; eassumption. Qed.
+Lemma claims_stmt k d fl lg y S : claims lg y S -> claims (GStmt k d fl :: lg) y S.
+Proof. intros H b lv s [E|Hin]; [discriminate | eapply H; eassumption]. Qed.
+Lemma claims_weak lg y (S S' : N -> Prop) : claims lg y S -> (forall k, S k -> S' k) -> claims lg y S'.
+Proof. intros H Hs b lv s Hin. destruct (H b lv s Hin) as [H1 H2]. split; [intros t Ht; apply Hs, H1, Ht | exact H2]. Qed.
+(* later writes outside S do not disturb the claims *)
+Lemma claims_frame lg y y' (S : N -> Prop) T :
+  claims lg y S -> frame y y' T -> (forall k, S k -> ~ In k T) -> claims lg y' S.
+Proof.
+  intros H F Hd b lv s Hin. destruct (H b lv s Hin) as [H1 H2]. split; [exact H1|].
+  rewrite <- H2. apply any_stops_stable. intros t Ht. apply F. apply Hd, H1, Ht.
+Qed.
+Lemma claims_info lg y y' S : claims lg y S -> info y' = info y -> claims lg y' S.
+Proof. intros H E b lv s Hin. rewrite E. eapply H. exact Hin. Qed.
+
+Definition cokc (g : st -> gres) (S : N -> Prop) (K : list N) : Prop :=
+  forall x, fresh x K -> claims (g_lg (g x)) (g_st (g x)) S.
+Definition cokl (g : st -> gres_l) (S : N -> Prop) (K : list N) : Prop :=
+  forall x, fresh x K -> claims (l_lg (g x)) (l_st (g x)) S.
+Definition cokcs (g : st -> gres_c) (S : N -> Prop) (K : list N) : Prop :=
+  forall x, fresh x K -> claims (c_lg (g x)) (c_st (g x)) S.
+Definition frc (g : st -> gres) (K : list N) : Prop := forall x, fresh x K -> frame x (g_st (g x)) K.
+Definition frl (g : st -> gres_l) (K : list N) : Prop := forall x, fresh x K -> frame x (l_st (g x)) K.
+Definition frcs (g : st -> gres_c) (K : list N) : Prop := forall x, fresh x K -> frame x (c_st (g x)) K.
+
+Lemma SK_not_p K p k : SK K p k -> ~ In k [p].
+Proof. intros [_ Hne] [E|[]]. apply Hne. symmetry. exact E. Qed.
+Lemma SK_up K p K' p' : incl K K' -> ~ In p' K -> forall k, SK K p k -> SK K' p' k.
+Proof. intros Hi Hp k [Hk _]. split; [apply Hi, Hk | intros ->; exact (Hp Hk)]. Qed.
+Lemma SL_up K K' p' : incl K K' -> ~ In p' K -> forall k, SL K k -> SK K' p' k.
+Proof. intros Hi Hp k Hk. split; [apply Hi, Hk | intros ->; exact (Hp Hk)]. Qed.
+
+Lemma cok_wrap s V S K : cokc V S K -> cokc (wrap s V) S K.
+Proof.
+  intros H x0 Hf. unfold wrap. rewrite g_lg_gcons, g_st_gcons. apply claims_stmt. apply H.
+  intros k Hk. rewrite E_set_unreach. apply Hf. exact Hk.
+Qed.
+
+Lemma cok_leaf (f : st -> st) S K : cokc (fun x => (f x, None, [])) S K.
+Proof. intros x _. apply claims_nil. Qed.
+
+Lemma cok_orb s g K : cokc g (SK K (pos s)) K -> cokc (fun a => orbG s (g a)) (SK K (pos s)) K.
+Proof.
+  intros H x Hf. specialize (H x Hf). unfold orbG. destruct (g x) as [[y r] lg]. cbn [g_st g_lg fst snd] in *.
+  destruct (is_brk_or_cont s); cbn [g_st g_lg fst snd]; [|exact H].
+  eapply claims_frame; [exact H | apply (frame_mark (pos s) EBreak y [pos s]); left; reflexivity | apply SK_not_p].
+Qed.
+
+Lemma cok_block_end p g K : cokl g (SL K) K -> ~ In p K -> cokc (fun a => block_endG p (g a)) (SK (p :: K) p) (p :: K).
+Proof.
+  intros H Hp x Hf. specialize (H x (fresh_incl _ _ _ Hf (incl_tl _ (incl_refl _)))). unfold block_endG.
+  destruct (g x) as [[y tops] lg]. cbn [g_st g_lg l_st l_lg fst snd] in *.
+  eapply claims_frame; [eapply claims_weak; [exact H | apply SL_up; [apply incl_tl, incl_refl | exact Hp]]| | apply SK_not_p].
+  unfold block_end. destruct (s_end (sc y)); apply frame_mark; left; reflexivity.
+Qed.
+
+(* with_child_scope: the exit writes at most `start` *)
+Lemma cok_with_child kd start g (S : N -> Prop) K x :
+  cokc g S K -> fresh x K -> (forall k, S k -> k <> start) ->
+  claims (g_lg (with_childG fx kd start g x)) (g_st (with_childG fx kd start g x)) S.
+Proof.
+  intros H Hf Hs. specialize (H (child_enter kd x) (fresh_info _ _ _ eq_refl Hf)). unfold with_childG.
+  destruct (g (child_enter kd x)) as [[c r] lg]. cbn [g_st g_lg fst snd] in *.
+  eapply claims_frame; [exact H | apply (frame_child_exit fx kd start x c [start]); left; reflexivity|].
+  intros k Hk [E|[]]. apply (Hs k Hk). symmetry. exact E.
+Qed.
+
+Lemma cok_fn p pb g K : cokl g (SL K) K -> ~ In p (pb :: K) -> ~ In pb K ->
+  cokc (fn_likeG fx p pb g) (SK (p :: pb :: K) p) (p :: pb :: K).
+Proof.
+  intros H Hp Hpb x Hf. unfold fn_likeG.
+  assert (Hs : forall k, SK (pb :: K) pb k -> k <> p) by (intros k [Hk _] ->; exact (Hp Hk)).
+  pose proof (cok_with_child KFunction p _ _ _ x (cok_block_end pb g K H Hpb)
+                (fresh_incl _ _ _ Hf (incl_tl _ (incl_refl _))) Hs) as HC.
+  unfold with_childG in HC. destruct (block_endG pb (g (child_enter KFunction x))) as [[c r] lg]. cbn [g_st g_lg fst snd] in *.
+  eapply claims_weak; [exact HC|].
+  intros k [Hk Hne]. split; [right; exact Hk | intros ->; exact (Hp Hk)].
+Qed.
+
+Lemma cok_arrow p pb g K : cokl g (SL K) K -> ~ In p (pb :: K) -> ~ In pb K ->
+  cokc (fun x => let '(y, r, lg) := fn_likeG fx p pb g x in (visit_lit y, r, lg)) (SK (p :: pb :: K) p) (p :: pb :: K).
+Proof.
+  intros H Hp Hpb x Hf. pose proof (cok_fn p pb g K H Hp Hpb x Hf) as HC.
+  destruct (fn_likeG fx p pb g x) as [[y r] lg]. cbn [g_st g_lg fst snd] in *.
+  eapply claims_info; [exact HC | apply info_visit_lit].
+Qed.
+
+Lemma cok_if p c p1 g1 K1 : cokc g1 (SK K1 p1) K1 -> ~ In p K1 ->
+  cokc (visit_ifG fx p c p1 g1) (SK (p :: K1) p) (p :: K1).
+Proof.
+  intros H Hp x Hf. unfold visit_ifG.
+  assert (Hf1 : fresh (visit_cond c x) K1).
+  { eapply fresh_info; [apply info_visit_cond|]. eapply fresh_incl; [exact Hf | apply incl_tl, incl_refl]. }
+  pose proof (cok_with_child KIf p1 g1 _ _ _ H Hf1 (fun k Hk => proj2 Hk)) as HC.
+  destruct (with_childG fx KIf p1 g1 (visit_cond c x)) as [[y r] lg]. cbn [g_st g_lg fst snd] in *.
+  eapply claims_info; [|reflexivity].
+  eapply claims_frame; [eapply claims_weak; [exact HC | apply SK_up; [apply incl_tl, incl_refl | exact Hp]]
+                       | apply (frame_mark p EContinue y [p]); left; reflexivity | apply SK_not_p].
+Qed.
+
+
+Lemma cok_if_else p c p1 g1 K1 p2 g2 K2 :
+  cokc g1 (SK K1 p1) K1 -> cokc g2 (SK K2 p2) K2 -> frc g1 K1 -> frc g2 K2 ->
+  ~ In p (K1 ++ K2) -> (forall k, In k K1 -> ~ In k K2) ->
+  cokc (visit_if_elseG fx p c p1 g1 p2 g2) (SK (p :: K1 ++ K2) p) (p :: K1 ++ K2).
+Proof.
+  intros H1 H2 F1 F2 Hp Hd x Hf. unfold visit_if_elseG.
+  assert (Hf1 : fresh (visit_cond c x) K1).
+  { eapply fresh_info; [apply info_visit_cond|]. eapply fresh_incl; [exact Hf | apply incl_tl, incl_appl, incl_refl]. }
+  pose proof (cok_with_child KIf p1 g1 _ _ _ H1 Hf1 (fun k Hk => proj2 Hk)) as HC1.
+  assert (Fr1 : frame (visit_cond c x) (g_st (with_childG fx KIf p1 g1 (visit_cond c x))) K1).
+  { unfold with_childG. pose proof (F1 (child_enter KIf (visit_cond c x)) (fresh_info _ _ _ eq_refl Hf1)) as Fc.
+    destruct (g1 (child_enter KIf (visit_cond c x))) as [[c1 r1] lg1]. cbn [g_st fst snd] in *.
+    eapply frame_trans; [exact Fc | apply frame_info, info_child_exit_if]. }
+  destruct (with_childG fx KIf p1 g1 (visit_cond c x)) as [[x2 r1] lg1]. cbn [g_st g_lg fst snd] in *.
+  assert (Hf2 : fresh x2 K2).
+  { eapply fresh_frame; [|exact Fr1 | intros k Hk Hk'; exact (Hd k Hk' Hk)].
+    eapply fresh_info; [apply info_visit_cond|]. eapply fresh_incl; [exact Hf | apply incl_tl, incl_appr, incl_refl]. }
+  pose proof (cok_with_child KIf p2 g2 _ _ _ H2 Hf2 (fun k Hk => proj2 Hk)) as HC2.
+  assert (Fr2 : frame x2 (g_st (with_childG fx KIf p2 g2 x2)) K2).
+  { unfold with_childG. pose proof (F2 (child_enter KIf x2) (fresh_info _ _ _ eq_refl Hf2)) as Fc.
+    destruct (g2 (child_enter KIf x2)) as [[c2 r2'] lg2']. cbn [g_st fst snd] in *.
+    eapply frame_trans; [exact Fc | apply frame_info, info_child_exit_if]. }
+  destruct (with_childG fx KIf p2 g2 x2) as [[x3 r2] lg2]. cbn [g_st g_lg fst snd] in *.
+  assert (Hn1 : ~ In p K1) by (intros Hk; apply Hp, in_or_app; left; exact Hk).
+  assert (Hn2 : ~ In p K2) by (intros Hk; apply Hp, in_or_app; right; exact Hk).
+  assert (Ft : frame x3 (if_else_end p r1 r2 x3) [p]).
+  { unfold if_else_end. destruct (if_else_mark r1 r2); [apply frame_mark; left; reflexivity | apply frame_info; reflexivity]. }
+  apply claims_app.
+  - eapply claims_frame; [|exact Ft | apply SK_not_p].
+    eapply claims_weak; [|apply (SK_up K1 p1); [apply incl_tl, incl_appl, incl_refl | exact Hn1]].
+    eapply claims_frame; [exact HC1 | exact Fr2 | intros k [Hk _]; exact (Hd k Hk)].
+  - eapply claims_frame; [|exact Ft | apply SK_not_p].
+    eapply claims_weak; [exact HC2 | apply SK_up; [apply incl_tl, incl_appr, incl_refl | exact Hn2]].
+Qed.
+
+(* loops: after the body only the body's own key `lo` (and the loop's key p) are written *)
+Lemma cok_while p c lo g K : cokc g (SK K lo) K -> In lo K -> ~ In p K ->
+  cokc (visit_whileG fx c lo g) (SK (p :: K) p) (p :: K).
+Proof.
+  intros H Hlo Hp x Hf. unfold visit_whileG.
+  specialize (H (child_enter KLoop x) (fresh_info _ _ _ eq_refl (fresh_incl _ _ _ Hf (incl_tl _ (incl_refl _))))).
+  destruct (g (child_enter KLoop x)) as [[a r] lg]. cbn [g_st g_lg fst snd] in *.
+  eapply claims_weak; [|apply (SK_up K lo); [apply incl_tl, incl_refl | exact Hp]].
+  eapply claims_frame; [exact H | | apply SK_not_p].
+  eapply frame_trans; [apply (frame_while_post r c lo a [lo]); left; reflexivity|].
+  eapply frame_trans; [apply frame_child_exit; left; reflexivity | apply frame_info, info_visit_cond].
+Qed.
+
+Lemma cok_do_while p c lo g K : cokc g (SK K lo) K -> In lo K -> ~ In p K ->
+  cokc (visit_do_whileG fx p c lo g) (SK (p :: K) p) (p :: K).
+Proof.
+  intros H Hlo Hp x Hf. unfold visit_do_whileG.
+  specialize (H (child_enter KLoop x) (fresh_info _ _ _ eq_refl (fresh_incl _ _ _ Hf (incl_tl _ (incl_refl _))))).
+  destruct (g (child_enter KLoop x)) as [[a r] lg]. cbn [g_st g_lg fst snd] in *.
+  eapply claims_frame; [eapply claims_weak; [|apply (SK_up K lo); [apply incl_tl, incl_refl | exact Hp]]| | apply SK_not_p].
+  - eapply claims_frame; [exact H | | apply SK_not_p].
+    eapply frame_trans; [apply (frame_dowhile_post fx r c lo a [lo]); left; reflexivity | apply frame_child_exit; left; reflexivity].
+  - unfold dowhile_tail. eapply frame_trans; [|apply frame_info, info_visit_cond].
+    match goal with |- frame _ (match ?o with _ => _ end) _ => destruct o as [e|] end;
+      [destruct (is_forced e); [apply frame_mark; left; reflexivity | apply frame_refl] | apply frame_refl].
+Qed.
+
+Lemma cok_for p c lo g K : cokc g (SK K lo) K -> In lo K -> ~ In p K ->
+  cokc (visit_forG fx p c lo g) (SK (p :: K) p) (p :: K).
+Proof.
+  intros H Hlo Hp x Hf. unfold visit_forG.
+  set (x' := match c with Some c0 => visit_cond c0 x | None => x end).
+  assert (Ix' : info x' = info x) by (unfold x'; destruct c; [apply info_visit_cond | reflexivity]).
+  specialize (H (child_enter KLoop x') (fresh_info _ _ _ Ix' (fresh_incl _ _ _ Hf (incl_tl _ (incl_refl _))))).
+  destruct (g (child_enter KLoop x')) as [[a r] lg]. cbn [g_st g_lg fst snd] in *.
+  eapply claims_weak; [|apply (SK_up K lo); [apply incl_tl, incl_refl | exact Hp]].
+  eapply claims_frame; [exact H | |].
+  - eapply frame_trans; [apply (frame_for_post r p c lo a [lo; p]); [left; reflexivity | right; left; reflexivity]|].
+    apply frame_child_exit. left. reflexivity.
+  - intros k [Hk Hne] [E'|[E'|[]]]; [apply Hne; symmetry; exact E' | subst k; exact (Hp Hk)].
+Qed.
+
+Lemma cok_for_in p lo g K : cokc g (SK K lo) K -> In lo K -> ~ In p K ->
+  cokc (visit_for_inG fx lo g) (SK (p :: K) p) (p :: K).
+Proof.
+  intros H Hlo Hp x Hf. unfold visit_for_inG.
+  specialize (H (child_enter KLoop x) (fresh_info _ _ _ eq_refl (fresh_incl _ _ _ Hf (incl_tl _ (incl_refl _))))).
+  destruct (g (child_enter KLoop x)) as [[a r] lg]. cbn [g_st g_lg fst snd] in *.
+  eapply claims_weak; [|apply (SK_up K lo); [apply incl_tl, incl_refl | exact Hp]].
+  eapply claims_frame; [exact H | | apply SK_not_p].
+  eapply frame_trans; [|apply frame_child_exit; left; reflexivity].
+  unfold forin_post. eapply frame_trans; [apply frame_mark; left; reflexivity | apply frame_info; reflexivity].
+Qed.
+
+Lemma cok_label p l g K pb : cokc g (SK K pb) K -> ~ In p K ->
+  cokc (fun x => let '(y, _, lg) := with_childG fx (KLabel l) p g x in (y, None, lg)) (SK (p :: K) p) (p :: K).
+Proof.
+  intros H Hp x Hf.
+  assert (Hs : forall k, SK K pb k -> k <> p) by (intros k [Hk _] ->; exact (Hp Hk)).
+  pose proof (cok_with_child (KLabel l) p g _ _ x H (fresh_incl _ _ _ Hf (incl_tl _ (incl_refl _))) Hs) as HC.
+  destruct (with_childG fx (KLabel l) p g x) as [[y r] lg]. cbn [g_st g_lg fst snd] in *.
+  eapply claims_weak; [exact HC | apply SK_up; [apply incl_tl, incl_refl | exact Hp]].
+Qed.
+
+(* lists *)
+Lemma cok_nil S : cokl (fun y => (y, [], [])) S [].
+Proof. intros x _. apply claims_nil. Qed.
+
+Lemma cok_cons s g1 g2 K1 K2 p1 :
+  cokc g1 (SK K1 p1) K1 -> cokl g2 (SL K2) K2 -> frc g1 K1 -> frl g2 K2 -> (forall k, In k K1 -> ~ In k K2) ->
+  cokl (consG s g1 g2) (SL (K1 ++ K2)) (K1 ++ K2).
+Proof.
+  intros H1 H2 F1 F2 Hd x Hf. unfold consG.
+  assert (Hf1 : fresh x K1) by (eapply fresh_incl; [exact Hf | apply incl_appl, incl_refl]).
+  specialize (H1 x Hf1). specialize (F1 x Hf1). destruct (g1 x) as [[y1 r1] lg1]. cbn [g_st g_lg fst snd] in *.
+  assert (Hf2 : fresh y1 K2).
+  { eapply fresh_frame; [|exact F1 | intros k Hk Hk'; exact (Hd k Hk' Hk)]. eapply fresh_incl; [exact Hf | apply incl_appr, incl_refl]. }
+  specialize (H2 y1 Hf2). specialize (F2 y1 Hf2). destruct (g2 y1) as [[y2 tops] lg2]. cbn [l_st l_lg fst snd] in *.
+  apply claims_app.
+  - eapply claims_weak; [eapply claims_frame; [exact H1 | exact F2 | intros k [Hk _]; exact (Hd k Hk)]|].
+    intros k [Hk _]. apply in_or_app. left. exact Hk.
+  - eapply claims_weak; [exact H2 | intros k Hk; apply in_or_app; right; exact Hk].
+Qed.
+
+Lemma pos_in_keys_l b t : In t (stmts_to_list b) -> In (pos t) (keys_l b).
+Proof.
+  induction b as [|t' r IH] using stmts_list_ind; cbn [stmts_to_list keys_l]; [intros []|].
+  intros [<-|Hin]; apply in_or_app; [left; apply pos_in_keys | right; apply IH; exact Hin].
+Qed.
+
+(* a switch case: the new log entry *)
+Lemma cok_case cp b :
+  NoDup (keys_l b) -> cokl (anG_list fx b) (SL (keys_l b)) (keys_l b) -> ~ In cp (keys_l b) ->
+  cokc (visit_caseG fx cp b (anG_list fx b)) (SK (cp :: keys_l b) cp) (cp :: keys_l b).
+Proof.
+  intros Hn H Hcp y Hf. unfold visit_caseG.
+  assert (Hf1 : fresh (child_enter KCase y) (keys_l b)).
+  { eapply fresh_info; [reflexivity|]. eapply fresh_incl; [exact Hf | apply incl_tl, incl_refl]. }
+  specialize (H _ Hf1). pose proof (case_flag_at_list_end b Hn _ Hf1) as HT.
+  destruct (anG_list fx b (child_enter KCase y)) as [[c tops] lg]. cbn [g_st g_lg l_st l_tops l_lg fst snd] in *.
+  assert (Ft : frame c (set_end (mark_as_end cp (case_end_of (sc c)) (child_exit fx KCase cp y c)) (s_end (sc y))) [cp]).
+  { eapply frame_trans; [apply frame_info, info_child_exit_case|].
+    eapply frame_trans; [apply frame_mark; left; reflexivity | apply frame_info; reflexivity]. }
+  intros b' lv s [E|Hin].
+  - injection E as <- _ <-. split.
+    + intros t Ht. split; [right; apply pos_in_keys_l; exact Ht | intros Eq; apply Hcp; rewrite <- Eq; apply pos_in_keys_l; exact Ht].
+    + rewrite <- HT. apply any_stops_stable. intros t Ht. apply Ft. intros [Eq|[]]. apply Hcp. rewrite Eq. apply pos_in_keys_l. exact Ht.
+  - revert b' lv s Hin. change (claims lg (set_end (mark_as_end cp (case_end_of (sc c)) (child_exit fx KCase cp y c)) (s_end (sc y))) (SK (cp :: keys_l b) cp)).
+    eapply claims_frame; [eapply claims_weak; [exact H | apply SL_up; [apply incl_tl, incl_refl | exact Hcp]] | exact Ft | apply SK_not_p].
+Qed.
+
+Lemma cok_nilC S : cokcs (fun y => (y, [], [])) S [].
+Proof. intros x _. apply claims_nil. Qed.
+
+Lemma cok_consC g1 g2 K1 K2 p1 :
+  cokc g1 (SK K1 p1) K1 -> cokcs g2 (SL K2) K2 -> frc g1 K1 -> frcs g2 K2 -> (forall k, In k K1 -> ~ In k K2) ->
+  cokcs (consC g1 g2) (SL (K1 ++ K2)) (K1 ++ K2).
+Proof.
+  intros H1 H2 F1 F2 Hd x Hf. unfold consC.
+  assert (Hf1 : fresh x K1) by (eapply fresh_incl; [exact Hf | apply incl_appl, incl_refl]).
+  specialize (H1 x Hf1). specialize (F1 x Hf1). destruct (g1 x) as [[y1 r1] lg1]. cbn [g_st g_lg fst snd] in *.
+  assert (Hf2 : fresh y1 K2).
+  { eapply fresh_frame; [|exact F1 | intros k Hk Hk'; exact (Hd k Hk' Hk)]. eapply fresh_incl; [exact Hf | apply incl_appr, incl_refl]. }
+  specialize (H2 y1 Hf2). specialize (F2 y1 Hf2). destruct (g2 y1) as [[y2 rs] lg2]. cbn [c_st c_lg fst snd] in *.
+  apply claims_app.
+  - eapply claims_weak; [eapply claims_frame; [exact H1 | exact F2 | intros k [Hk _]; exact (Hd k Hk)]|].
+    intros k [Hk _]. apply in_or_app. left. exact Hk.
+  - eapply claims_weak; [exact H2 | intros k Hk; apply in_or_app; right; exact Hk].
+Qed.
+
+Lemma cok_switch p cs g K : cokcs g (SL K) K -> ~ In p K -> cokc (visit_switchG p cs g) (SK (p :: K) p) (p :: K).
+Proof.
+  intros H Hp x Hf. unfold visit_switchG. specialize (H x (fresh_incl _ _ _ Hf (incl_tl _ (incl_refl _)))).
+  destruct (g x) as [[x1 rs] lg]. cbn [g_st g_lg c_st c_lg fst snd] in *.
+  eapply claims_frame; [eapply claims_weak; [exact H | apply SL_up; [apply incl_tl, incl_refl | exact Hp]]| | apply SK_not_p].
+  unfold switch_tail. match goal with |- frame _ (if ?b then _ else _) _ => destruct b end;
+    [apply frame_mark; left; reflexivity | eapply frame_trans; [apply frame_mark; left; reflexivity | apply frame_info; reflexivity]].
+Qed.
+
 End Cases.
